@@ -39,10 +39,13 @@ CLAIMS = {
        "z3+cvc5): eval_rules_file (<=2 rules: file status = fold, FileCheck record, each rule evaluated through eval_rule exactly once), "
        "eval_rule and eval_when_condition_block (body evaluated iff the `when` is PASS, else SKIP; status = body status; records), "
        "eval_guard_block_clause and eval_type_block_clause (<=2 selected values: status fold, one body evaluation per resolved value, "
-       "BlockGuardCheck / TypeCheck record carries the returned status, a type block whose `when` is not PASS evaluates nothing).",
+       "BlockGuardCheck / TypeCheck record carries the returned status, a type block whose `when` is not PASS evaluates nothing), "
+       "and the record tree itself: RecordTracker::end_record attaches the innermost open record, with exactly the given container, as "
+       "the last child of the next open record (or makes it the root), and is an error - attaching nothing - when nothing is open or "
+       "the contexts differ; start_record opens one record.",
   note="The MIR checks model every callee by a symbolic result (e.g. eval_rule returns an arbitrary Result<Status,Error>), unroll loops "
        "twice and treat unknown statements as havoc: they decide the aggregation logic of each function, not the callees. NOT covered: "
-       "filters (check_and_delegate), parameterised rule calls, the real RecordTracker's tree (only call balance through a counting stub), "
+       "the records written by filters and parameterised rule calls, whole-run well-nesting (only each single start / end step is decided) (only call balance through a counting stub), "
        "the JSON rendering.",
   design="4/C02"),
  "C03": dict(
@@ -78,9 +81,11 @@ CLAIMS = {
        "call site) preserves, step by step from an arbitrary state, the invariant [exit code 0 iff nothing failed or errored; 19 if only "
        "FAILs were seen; 5 if only parse errors were seen]; the --structured json/yaml/sarif reporter returns 19 iff some (document, rules "
        "file) evaluation was FAIL and otherwise the code carried in; JunitReporter::update_exit_code is error > failure > success for all "
-       "i32 pairs; get_test_case marks a case Pass/Skip/Fail exactly by status.",
-  note="NOT covered: StructuredEvaluator::evaluate's try_fold over rules files (closure), the JUnit report loop (try_fold closure), "
-       "`test`'s reporters, files/stdin/clap, main(). The MIR checks fix verbose = print_json = false and no input parameters.",
+       "i32 pairs; get_test_case marks a case Pass/Skip/Fail exactly by status; the JUnit per-pair closure counts failures / errors / tests "
+       "exactly by the case mark and JunitReporter::report turns the totals into update_exit_code(ERROR | FAILURE | nothing); the "
+       "--structured parse closure sets the exit code to 5 on a parse error and leaves that file out; `test`'s plain reporter exits 0 / 7 / 1 "
+       "by mismatches / unreadable files.",
+  note="NOT covered: `test`'s structured / JUnit reporter and --dir mode beyond get_exit_code, files/stdin/clap, main(). The MIR checks fix verbose = print_json = false and no input parameters.",
   design="4/C06"),
  "C08": dict(
   text="Panic-freedom (Kani's panic/overflow/bounds/unwrap checks) of every harnessed kernel for all inputs in its bound, in particular "
@@ -152,7 +157,9 @@ CLAIMS = {
        "never hold on bools or on value-vs-range.",
   note="Clause level (MIR, z3+cvc5): NotComparable outcomes are reported FAIL by binary_operation and stay NotComparable under the "
        "operator-level `not` (flip table); each of < <= > >= is dispatched to its own comparison function; match_value classifies "
-       "Ok(true)/Ok(false)/NotComparable correctly and CommonOperator compares every left x right pair as (left, right). NOT covered: lists and maps "
+       "Ok(true)/Ok(false)/NotComparable correctly and CommonOperator compares every left x right pair as (left, right); contained_in's "
+       "five cases (list in list-of-lists / list / non-list, scalar in list / scalar); EqOperation and InOperation always pair a value of "
+       "the left operand set with one of the right operand set, with compare_eq. NOT covered: the values of list / map equality "
        "(heap recursion), regex matching (engine stubbed out), `in` lists.",
   design="4/C13"),
  "C15": dict(
@@ -197,7 +204,10 @@ CLAIMS = {
        "0..3 entries of symbolic kind; parse_int / parse_char / parse_float on non-string inputs (value or error, never a wrong value). "
        "Dispatch is decided on MIR (z3+cvc5): FunctionName::call evaluates every built-in name with its own implementation on the unchanged "
        "argument lists, and each one-line wrapper (to_upper, to_lower, url_decode, json_parse, parse_*) applies exactly its documented "
-       "function to its single argument list and returns that result.",
+       "function to its single argument list and returns that result; every element-wise built-in (url_decode, json_parse, "
+       "regex_replace, substring, to_upper, to_lower, parse_*) visits every argument value, appends exactly one result per value in "
+       "order, and builds a result only from that value, the fixed arguments and objects created while handling it (no state carried "
+       "from one value to the next), for argument lists of <= 2 values.",
   note="NOT covered: join (String::with_capacity(512)+push_str over heap strings: CBMC aborts at 14 GB), parse_bool/to_upper/to_lower "
        "(Unicode case tables reachable through heap-held kinds), url_decode, regex_replace, json_parse, parse_epoch, now, string "
        "parsing (`parse::<i64>` on symbolic bytes), dispatch/arity in the parser, results bound to variables.",
